@@ -143,7 +143,7 @@ def sym_groups(tier, seed):
                     calls.append(layout_call(sz, rng.choice(["tocm", "torm"]), "m", (n,)))
                 calls.append(ilist_call(sz, rng.choice([s for s in all_shapes(4, 3) if prod(s) <= 40])))
             # ---- operation sequences through maps and sources (same translation units as the layout sample)
-            ncase = (12 if isa != "scalar" else 6) if quick else 60
+            ncase = (12 if isa != "scalar" else 6) if quick else 40
             for (kind, mis, sd, md) in map_cases(rng, isa, sz, ncase, 40 if quick else 72):
                 ids = sorted(rng.sample(range(NEXPR), 2) if quick else rng.sample(range(NEXPR), 3))
                 if not (set(ids) & READS_X): ids[0] = rng.choice(sorted(READS_X - set(ids)))
